@@ -2288,13 +2288,13 @@ type bprog = { bp_temps : z; bp_min : z; bp_max : z; bp_live : z list;
                bp_code : binstr list }
 
 type bcst = { bc_tape : tmap; bc_ptr : z; bc_tmps : tmap; bc_pc : z;
-              bc_io : iost; bc_budget : z }
+              bc_io : iost; bc_budget : z; bc_lo : z; bc_hi : z }
 
 (** val bc0 : z -> bcst **)
 
 let bc0 budget =
   { bc_tape = tempty; bc_ptr = Z0; bc_tmps = tempty; bc_pc = Z0; bc_io = io0;
-    bc_budget = budget }
+    bc_budget = budget; bc_lo = Z0; bc_hi = Z0 }
 
 (** val bc_mem : bcst -> z -> z **)
 
@@ -2306,37 +2306,43 @@ let bc_mem s k =
 let bc_set_mem s k v =
   { bc_tape = (tset s.bc_tape (Z.add s.bc_ptr k) v); bc_ptr = s.bc_ptr;
     bc_tmps = s.bc_tmps; bc_pc = s.bc_pc; bc_io = s.bc_io; bc_budget =
-    s.bc_budget }
+    s.bc_budget; bc_lo = s.bc_lo; bc_hi = s.bc_hi }
 
 (** val bc_set_tmp : bcst -> z -> z -> bcst **)
 
 let bc_set_tmp s t0 v =
   { bc_tape = s.bc_tape; bc_ptr = s.bc_ptr; bc_tmps = (tset s.bc_tmps t0 v);
-    bc_pc = s.bc_pc; bc_io = s.bc_io; bc_budget = s.bc_budget }
+    bc_pc = s.bc_pc; bc_io = s.bc_io; bc_budget = s.bc_budget; bc_lo =
+    s.bc_lo; bc_hi = s.bc_hi }
 
 (** val bc_set_pc : bcst -> z -> bcst **)
 
 let bc_set_pc s pc =
   { bc_tape = s.bc_tape; bc_ptr = s.bc_ptr; bc_tmps = s.bc_tmps; bc_pc = pc;
-    bc_io = s.bc_io; bc_budget = s.bc_budget }
+    bc_io = s.bc_io; bc_budget = s.bc_budget; bc_lo = s.bc_lo; bc_hi =
+    s.bc_hi }
 
 (** val bc_set_io : bcst -> iost -> bcst **)
 
 let bc_set_io s i =
   { bc_tape = s.bc_tape; bc_ptr = s.bc_ptr; bc_tmps = s.bc_tmps; bc_pc =
-    s.bc_pc; bc_io = i; bc_budget = s.bc_budget }
+    s.bc_pc; bc_io = i; bc_budget = s.bc_budget; bc_lo = s.bc_lo; bc_hi =
+    s.bc_hi }
 
 (** val bc_move : bcst -> z -> bcst **)
 
 let bc_move s d =
   { bc_tape = s.bc_tape; bc_ptr = (Z.add s.bc_ptr d); bc_tmps = s.bc_tmps;
-    bc_pc = s.bc_pc; bc_io = s.bc_io; bc_budget = s.bc_budget }
+    bc_pc = s.bc_pc; bc_io = s.bc_io; bc_budget = s.bc_budget; bc_lo =
+    (Z.min s.bc_lo (Z.add s.bc_ptr d)); bc_hi =
+    (Z.max s.bc_hi (Z.add s.bc_ptr d)) }
 
 (** val bc_set_budget : bcst -> z -> bcst **)
 
 let bc_set_budget s b =
   { bc_tape = s.bc_tape; bc_ptr = s.bc_ptr; bc_tmps = s.bc_tmps; bc_pc =
-    s.bc_pc; bc_io = s.bc_io; bc_budget = b }
+    s.bc_pc; bc_io = s.bc_io; bc_budget = b; bc_lo = s.bc_lo; bc_hi =
+    s.bc_hi }
 
 (** val bc_read : z -> bcst -> loc -> z * bcst **)
 
@@ -3774,8 +3780,10 @@ let bc_wf_why num_regs fuse p =
 type rop =
 | REnter
 | RMov of z
+| RMovU of z
 | RGet of z
 | RSet of z * z
+| RPre of z * z
 
 type robs =
 | RVal of z
@@ -3837,6 +3845,7 @@ let rec r_run pol mn mx ops allocs t0 =
         | RawOob i -> RawOob i
         | TooLarge -> TooLarge
         | AllocFail -> AllocFail)
+     | RMovU d -> r_run pol mn mx rest allocs (t_mov t0 d)
      | RGet k ->
        (match r_get t0 k with
         | TOk v ->
@@ -3851,6 +3860,15 @@ let rec r_run pol mn mx ops allocs t0 =
         | TOk t' -> r_run pol mn mx rest allocs t'
         | RawOob i -> RawOob i
         | TooLarge -> TooLarge
+        | AllocFail -> AllocFail)
+     | RPre (a, b) ->
+       let (ok, allocs') =
+         if grows t0 a b then next_alloc allocs else (true, allocs)
+       in
+       (match t_make_accessible pol ok t0 a b with
+        | TOk t' -> r_run pol mn mx rest allocs' t'
+        | RawOob i -> RawOob i
+        | TooLarge -> TooLarge
         | AllocFail -> AllocFail))
 
 (** val r_spec : rop list -> (z -> z) -> z -> z list **)
@@ -3860,11 +3878,12 @@ let rec r_spec ops cells pos =
   | [] -> []
   | r :: rest ->
     (match r with
-     | REnter -> r_spec rest cells pos
      | RMov d -> r_spec rest cells (Z.add pos d)
+     | RMovU d -> r_spec rest cells (Z.add pos d)
      | RGet k -> (cells (Z.add pos k)) :: (r_spec rest cells pos)
      | RSet (k, v) ->
-       r_spec rest (fun i -> if Z.eqb i (Z.add pos k) then v else cells i) pos)
+       r_spec rest (fun i -> if Z.eqb i (Z.add pos k) then v else cells i) pos
+     | _ -> r_spec rest cells pos)
 
 (** val rops_ok : z -> z -> rop list -> z -> bool **)
 
@@ -3878,7 +3897,8 @@ let rec rops_ok mn mx ops pos =
      | RGet k ->
        (&&) ((&&) (Z.leb mn k) (Z.leb k mx)) (rops_ok mn mx rest pos)
      | RSet (k, _) ->
-       (&&) ((&&) (Z.leb mn k) (Z.leb k mx)) (rops_ok mn mx rest pos))
+       (&&) ((&&) (Z.leb mn k) (Z.leb k mx)) (rops_ok mn mx rest pos)
+     | _ -> false)
 
 type kind =
 | KPrintIr
